@@ -445,6 +445,31 @@ class Masked:
         return Sum(0, self.n, lambda t: ite(self.mask(t), 1, 0))
 
 
+class MaskRank:
+    """the position, inside a boolean-mask selection, of the selected element with underlying index t (what
+    enumerate() over the selection counts); only usable to index a selection made with the same mask"""
+    __slots__ = ("t", "n", "mask")
+
+    def __init__(self, t, n, mask):
+        self.t, self.n, self.mask = t, n, mask
+
+
+def masked_getitem(a, key):
+    """sel[rank] where rank is the enumerate() counter of a selection with the same mask: the underlying element"""
+    if not isinstance(key, MaskRank) or a.rest != ():
+        raise EngineError("indexing a masked selection")
+    require_dim_eq(a.n, key.n, "mask-length")
+    probe = sv.fresh_int("mk")
+    m1, m2 = norm(a.mask(probe)), norm(key.mask(probe))
+    same = (is_conc(m1) and is_conc(m2) and m1 == m2) or (isinstance(m1, SV) and isinstance(m2, SV) and z3.simplify(m1.t).eq(z3.simplify(m2.t)))
+    if not same:
+        raise EngineError("selection indexed by the position in a selection with a different mask")
+    return a.src((key.t,))
+
+
+SYMBOLIC_MINMAX = [None]     # hook: contract of min/max over a symbolic axis (registered by a library extension)
+
+
 def _norm_index(i, n, what="index-bounds"):
     """python/numpy integer index -> nonneg index, with the bounds side obligation"""
     i = norm(i)
@@ -906,6 +931,8 @@ def reduce_minmax(a, which, axis=None):
         raise EngineError("min/max with axis")
     shape = a.shape
     if not all(dim_conc(d) for d in shape):
+        if len(shape) == 1 and SYMBOLIC_MINMAX[0] is not None:
+            return SYMBOLIC_MINMAX[0](a, which)
         raise EngineError("min/max over symbolic axis")
     r = a.reader()
     acc = None
